@@ -28,7 +28,8 @@ func init() {
 			NotCovered: "hazards other than the recognised ones (non-positive quantities, family bounds, division by zero); validation " +
 				"of lists, URLs and cross-references between sections; the environment variables.",
 			Rules: map[string]string{"C20-R1": "zero / negative rejection of every numeric setting", "C20-R2": "subnet key length family bounds",
-				"C20-R3": "section table completeness", "C20-R4": "divisor provenance", "C20-R5": "validated settings are copied into the constructor fields of the same meaning"},
+				"C20-R3": "section table completeness", "C20-R4": "divisor provenance", "C20-R5": "validated settings are copied into the constructor fields of the same meaning",
+				"C20-R6": "DDR record validation: DoH port needs a path, hints must be of their address family"},
 		}})
 }
 
@@ -175,6 +176,7 @@ var c20Skip = map[string]string{
 }
 
 func runC20(c *an.Ctx) {
+	c20DDR(c)
 	c.Floor("C20-R1", 60)
 	c.Floor("C20-R2", 4)
 	c.Floor("C20-R3", 20)
@@ -602,4 +604,50 @@ func trunc(s string, n int) string {
 		return s[:n]
 	}
 	return s
+}
+
+// c20DDR is the table of the DDR record validation: a hint of the wrong address
+// family (which makes every DDR answer fail at packing time) is rejected.
+func c20DDR(c *an.Ctx) {
+	c.Floor("C20-R6", 1)
+	decide(c, "C20-R6", "cmd.(*ddrRecord).validate", an.DecideCfg{
+		Dom: an.Domain{"p0": {an.NonNil("r")}, "(r.HTTPSPort == 0)": an.Bools, `(r.DoHPath == "")`: an.Bools,
+			"len(r.IPv4Hints)": an.Ints(0, 1), "len(r.IPv6Hints)": an.Ints(0, 1), "is4": an.Bools, "is6": an.Bools},
+		OnCall: func(it *an.Interp, name string, args []an.AV) (an.AV, bool) {
+			switch {
+			case name == "(net/netip.Addr).Is4":
+				if strings.Contains(args[0].String(), "IPv4Hints") {
+					return it.Feature("is4"), true
+				}
+				return an.Sym("Is4 of " + args[0].String()), true
+			case name == "(net/netip.Addr).Is6":
+				if strings.Contains(args[0].String(), "IPv6Hints") {
+					return it.Feature("is6"), true
+				}
+				return an.Sym("Is6 of " + args[0].String()), true
+			case strings.HasSuffix(name, ").validatePorts"):
+				return an.Sym("portsresult"), true
+			case name == "fmt.Errorf":
+				return an.NonNil("wrapped"), true
+			}
+			return an.AV{}, false
+		},
+		Expect: func(f an.Features, o an.AOutcome) string {
+			if len(o.Ret) != 1 {
+				return "an error result"
+			}
+			bad := (!f.B("(r.HTTPSPort == 0)") && f.B(`(r.DoHPath == "")`)) ||
+				(f.I("len(r.IPv4Hints)") > 0 && !f.B("is4")) || (f.I("len(r.IPv6Hints)") > 0 && !f.B("is6"))
+			if bad {
+				if o.Ret[0].Kind == an.KNonNil {
+					return ""
+				}
+				return "an error for a DoH port without a path or a hint of the wrong address family (such a hint makes every DDR answer fail when it is packed); got " + o.RetString()
+			}
+			if o.RetString() != "portsresult" {
+				return "the port validation's verdict for an otherwise valid record; got " + o.RetString()
+			}
+			return ""
+		},
+	})
 }
